@@ -74,44 +74,48 @@ type Switch struct {
 
 // Stats are the counters of one run; all measured, none configured.
 type Stats struct {
-	Steps            int64  // instrumented statements executed by tasks
-	Switches         int64  // context switches
-	LockEdgeSwitches int64  // switches taken at a Lock/Unlock edge
-	Blocked          int64  // times a task found a mutex held and was parked
-	ParkedHolding    int64  // switches away from a task that held a mutex
-	Locks            int64  // simulated Lock calls
-	Decisions        int64  // scheduler decisions taken
-	TraceHash        uint64 // FNV-1a over (from,to,site) of all switches
-	MaxConcurrent    int32
-	Spawned          int64 // goroutines started by the code under test that became tasks
-	PermVisits       int64 // map-range visits under simulator control
-	PermNontrivial   int64 // ... with >= 2 keys
-	PermNonIdentity  int64 // ... iterated in a non-canonical order
-	PermBig          int64 // ... with >= 9 keys (several buckets in a Go map)
-	PermMaxKeys      int64
-	PermHash         uint64 // FNV-1a over (site, applied order) of all visits
-	ClockReads       int64
-	ClockBackwards   int64
-	ClockMin         int64
-	ClockMax         int64
-	GapsUsed         int32
-	PicksUsed        int32
-	EdgesUsed        int32
-	PermsUsed        int32
-	ClocksUsed       int32
-	PoolsUsed        int32
-	PoolGets         int64
-	PoolReuses       int64
-	PoolDrops        int64
-	StreamOverruns   int64
-	ChanOps          int64 // channel operations (send, receive, close, select) of the code under test
-	ChanParks        int64 // ... that found nothing to do and parked the task
-	Rendezvous       int64 // hand-overs on unbuffered channels
-	SelectChoices    int64 // selects with more than one case: first case tried chosen by the tape
-	Sleeps           int64 // time.Sleep calls of the code under test
-	ClockJumps       int64 // times the clock jumped to the earliest sleeper because nothing could run
-	ProcQueries      int64 // runtime.GOMAXPROCS / NumCPU queries answered with the simulated value
-	Crashes          int64 // runs ended by an unrecovered panic on a goroutine of the code under test
+	Steps               int64  // instrumented statements executed by tasks
+	Switches            int64  // context switches
+	LockEdgeSwitches    int64  // switches taken at a Lock/Unlock edge
+	Blocked             int64  // times a task found a mutex held and was parked
+	ParkedHolding       int64  // switches away from a task that held a mutex
+	Locks               int64  // simulated Lock calls
+	Decisions           int64  // scheduler decisions taken
+	TraceHash           uint64 // FNV-1a over (from,to,site) of all switches
+	MaxConcurrent       int32
+	Spawned             int64 // goroutines started by the code under test that became tasks
+	PermVisits          int64 // map-range visits under simulator control
+	PermNontrivial      int64 // ... with >= 2 keys
+	PermNonIdentity     int64 // ... iterated in a non-canonical order
+	PermBig             int64 // ... with >= 9 keys (several buckets in a Go map)
+	PermMaxKeys         int64
+	PermHash            uint64 // FNV-1a over (site, applied order) of all visits
+	ClockReads          int64
+	ClockBackwards      int64
+	ClockMin            int64
+	ClockMax            int64
+	GapsUsed            int32
+	PicksUsed           int32
+	EdgesUsed           int32
+	PermsUsed           int32
+	ClocksUsed          int32
+	PoolsUsed           int32
+	PoolGets            int64
+	PoolReuses          int64
+	PoolDrops           int64
+	StreamOverruns      int64
+	ChanOps             int64 // channel operations (send, receive, close, select) of the code under test
+	ChanParks           int64 // ... that found nothing to do and parked the task
+	Rendezvous          int64 // hand-overs on unbuffered channels
+	SelectChoices       int64 // selects with more than one case: first case tried chosen by the tape
+	Sleeps              int64 // time.Sleep calls of the code under test
+	ClockJumps          int64 // times the clock jumped to the earliest sleeper because nothing could run
+	MapRecreated        int64 // keys deleted and created again during a range over their map
+	MapRecreatedSkipped int64 // ... that the tape left out
+	MapNewKeys          int64 // keys created during a range over their map
+	MapNewKeysVisited   int64 // ... that the tape produced
+	ProcQueries         int64 // runtime.GOMAXPROCS / NumCPU queries answered with the simulated value
+	Crashes             int64 // runs ended by an unrecovered panic on a goroutine of the code under test
 }
 
 var (
@@ -217,6 +221,7 @@ func Load(c *Config) {
 		stepCap = 1 << 40
 	}
 	spinSleep = c.SpinSleep
+	resetDeleteLog()
 	simProcs = c.Procs
 	procsLoaded = true
 	simNow = c.ClockBase
